@@ -640,7 +640,7 @@ func TestCheck(t *testing.T) {
 
 	for _, a := range algos {
 		a := a
-		r.Group("random-"+a, r.Pick(80, 3000), func(i int, rng *report.Rand) {
+		r.Group("random-"+a, r.Pick(80, 1000), func(i int, rng *report.Rand) {
 			n := 6 + rng.Intn(20)
 			evs := make([]int, n)
 			for k := range evs {
@@ -685,7 +685,7 @@ func TestCheck(t *testing.T) {
 
 	for _, a := range []string{"epidemic", "prophet", "spray"} {
 		a := a
-		r.Group("coincidence-submit-"+a, r.Pick(36, 600), func(i int, rng *report.Rand) {
+		r.Group("coincidence-submit-"+a, r.Pick(36, 200), func(i int, rng *report.Rand) {
 			if err := coincidenceSubmit(r, a, i); err != nil {
 				r.Violation("c13.node-deadlock-or-panic", err.Error(), map[string]interface{}{"algorithm": a, "workload": "coincidence-submit"})
 			}
@@ -693,7 +693,7 @@ func TestCheck(t *testing.T) {
 	}
 	for _, a := range []string{"epidemic", "prophet", "spray"} {
 		a := a
-		r.Group("coincidence-"+a, r.Pick(60, 1700), func(i int, rng *report.Rand) {
+		r.Group("coincidence-"+a, r.Pick(60, 400), func(i int, rng *report.Rand) {
 			if err := coincidence(r, a, i); err != nil {
 				r.Violation("c13.node-deadlock-or-panic", err.Error(), map[string]interface{}{"algorithm": a, "workload": "coincidence"})
 			}
